@@ -387,7 +387,7 @@ func c11Search(c *Ctx, tables []bitmap) {
 	stateCap := int64(600000)
 	if c.Thorough() {
 		fullN = 8
-		depthAll, depthNamed = 1, 3
+		depthAll, depthNamed = 1, 2
 		stateCap = 8000000
 	}
 	c.Bound("partB_depth_all_seeds", depthAll)
